@@ -94,6 +94,11 @@ func buildC11(c *c11Case) *liveCase {
 		// ASA that shows addresses by name ('names' with definitions).
 		lc.Cli.Config = "names\nname 10.1.1.1 host-one\nname 10.1.1.2 host-two\n" + lc.Cli.Config
 	}
+	if c.Variant == "call-home-question" && lc.Cli != nil {
+		// The session must enter configuration mode for the terminal
+		// width; the ASA then asks about anonymous error reporting.
+		lc.Cli.Width80, lc.Cli.CallHomeAsk = true, true
+	}
 	if c.Variant == "enable-unset" && lc.Cli != nil {
 		// Login ends in user mode and 'enable' asks to define a new
 		// enable password (typed twice); answering both prompts changes
@@ -123,7 +128,7 @@ func checkC11(tier, replay string) int {
 	env.BuildRepo(true)
 	rep := ev.New(env, "fault_enumeration")
 	rep.Rule = "Compare runs for {asa, ios, linux, panos, nsx} x {drc -C, do-approve compare} x 3 scenarios with non-empty differences x " +
-		"variant {healthy, marker absent, wrong hostname, unknown interface, banner not configured, ASA without enable password whose 'enable' asks to define one, ASA with 'names' enabled, other spellings of the compare verb/flag (Compare, COMPARE, --compare, -qC, --compare=true), drc -C without -L / with -q / both} without fault, and for the healthy variant " +
+		"variant {healthy, marker absent, wrong hostname, unknown interface, banner not configured, ASA without enable password whose 'enable' asks to define one, ASA with 'names' enabled, ASA that asks about anonymous error reporting when configuration mode is entered, other spellings of the compare verb/flag (Compare, COMPARE, --compare, -qC, --compare=true), drc -C without -L / with -q / both} without fault, and for the healthy variant " +
 		"a fault of kind {error text, unexpected output, connection close, wrong echo, stall, death of the ssh client while a prompt is still on its way | HTTP 500, 403, close, malformed body, status=error, stall} " +
 		"at every ordinal position of the dialogue of the reference run. Oracle: zero config-change and zero save/commit events in the simulator transcript " +
 		"(ASA 'terminal width 511' is a session setting). Non-trivial = the reference compare of the scenario reports differences; distinct = distinct (case, fault). " +
@@ -174,8 +179,8 @@ func checkC11(tier, replay string) int {
 			lr.cleanup()
 		})
 		for i, k := range keys {
-			for _, v := range []string{"healthy", "marker-absent", "wrong-hostname", "unknown-interface", "not-configured", "uncommitted-own", "foreign-reload-banner", "enable-unset", "names-enabled"} {
-				if (v == "enable-unset" || v == "names-enabled") && k.typ != "asa" {
+			for _, v := range []string{"healthy", "marker-absent", "wrong-hostname", "unknown-interface", "not-configured", "uncommitted-own", "foreign-reload-banner", "enable-unset", "names-enabled", "call-home-question"} {
+				if (v == "enable-unset" || v == "names-enabled" || v == "call-home-question") && k.typ != "asa" {
 					continue
 				}
 				if v == "uncommitted-own" && k.typ != "panos" {
